@@ -1,0 +1,156 @@
+//! Verification hooks for `execution.rs` (compiled only with `--cfg scylla_verif`).
+//!
+//! Runs the real request execution core over synthetic targets. Contains no driver logic
+//! of its own.
+
+use super::{AttemptTarget, RequestExecutionParams, RequestPaging, RunRequestResult};
+use crate::errors::{ConnectionPoolError, RequestAttemptError, RequestError};
+use crate::frame::response::NonErrorResponseWithDeserializedMetadataV2 as NonErrorResponseWithDeserializedMetadata;
+use crate::frame::types::{Consistency, SerialConsistency};
+use crate::network::Connection;
+use crate::observability::driver_tracing::RequestSpan;
+use crate::observability::metrics::Metrics;
+use crate::policies::load_balancing::{LoadBalancingPolicy, RoutingInfo};
+use crate::policies::retry::{RequestInfo, RetryPolicy};
+use crate::policies::speculative_execution::SpeculativeExecutionPolicy;
+use crate::response::NonErrorQueryResponse;
+use std::cell::Cell;
+use std::future::Future;
+use std::net::SocketAddr;
+use std::rc::Rc;
+use std::sync::Arc;
+use std::time::Duration;
+
+/// Constructor for the `#[non_exhaustive]` `RequestInfo`.
+pub fn request_info(
+    error: &RequestAttemptError,
+    is_idempotent: bool,
+    consistency: Consistency,
+) -> RequestInfo<'_> {
+    RequestInfo {
+        error,
+        is_idempotent,
+        consistency,
+    }
+}
+
+/// An opaque real connection (to a listener that is never written to).
+#[derive(Clone)]
+pub struct DummyConnection(Arc<Connection>);
+
+pub async fn dummy_connection(addr: SocketAddr) -> Result<DummyConnection, String> {
+    crate::network::connection_verif::dummy_connection(addr)
+        .await
+        .map(DummyConnection)
+}
+
+struct SynthTarget {
+    idx: usize,
+    conn: Option<Arc<Connection>>,
+    current: Rc<Cell<usize>>,
+}
+
+impl AttemptTarget for SynthTarget {
+    type Coordinator = usize;
+
+    async fn get_connection(&self) -> Result<Arc<Connection>, ConnectionPoolError> {
+        match &self.conn {
+            Some(c) => {
+                // No await separates this from the `run_request_once` call in the fiber.
+                self.current.set(self.idx);
+                Ok(Arc::clone(c))
+            }
+            None => Err(ConnectionPoolError::Initializing),
+        }
+    }
+
+    fn coordinator(&self, _connection: &Arc<Connection>) -> usize {
+        self.idx
+    }
+
+    fn on_attempt_success(&self, _: &dyn LoadBalancingPolicy, _: &RoutingInfo<'_>, _: Duration) {}
+
+    fn on_attempt_failure(
+        &self,
+        _: &dyn LoadBalancingPolicy,
+        _: &RoutingInfo<'_>,
+        _: Duration,
+        _: &RequestAttemptError,
+    ) {
+    }
+}
+
+pub struct ExecParams<'a> {
+    pub is_idempotent: bool,
+    pub consistency: Consistency,
+    pub serial_consistency: Option<SerialConsistency>,
+    pub retry_policy: &'a dyn RetryPolicy,
+    pub load_balancing_policy: &'a dyn LoadBalancingPolicy,
+    pub speculative_policy: Option<&'a dyn SpeculativeExecutionPolicy>,
+    pub request_timeout: Option<Duration>,
+}
+
+pub enum ExecOutcome {
+    /// Completed by the target with this plan index.
+    Completed(usize),
+    /// The retry policy decided `IgnoreWriteError` on this target.
+    IgnoredWriteError(usize),
+}
+
+/// Runs `RequestExecutionParams::run_request_no_side_effects` over `plan`
+/// (`true` = the target yields a connection, `false` = choosing a connection fails).
+/// `run_once(target index, consistency)` stands for one attempt on the wire.
+/// Must be driven on a current-thread runtime (uses `Rc`).
+pub async fn run_request<Fut>(
+    params: ExecParams<'_>,
+    conn: &DummyConnection,
+    plan: Vec<bool>,
+    run_once: impl Fn(usize, Consistency) -> Fut,
+) -> Result<ExecOutcome, RequestError>
+where
+    Fut: Future<Output = Result<(), RequestAttemptError>>,
+{
+    let metrics = Arc::new(Metrics::new());
+    let exec_params = RequestExecutionParams {
+        is_idempotent: params.is_idempotent,
+        consistency: params.consistency,
+        serial_consistency: params.serial_consistency,
+        retry_policy: params.retry_policy,
+        load_balancing_policy: params.load_balancing_policy,
+        metrics_and_speculative_policy: Some((&metrics, params.speculative_policy)),
+        request_timeout: params.request_timeout,
+        history_listener: None,
+        request_kind: RequestPaging::Unpaged,
+    };
+    let current = Rc::new(Cell::new(usize::MAX));
+    let targets: Vec<SynthTarget> = plan
+        .into_iter()
+        .enumerate()
+        .map(|(idx, ok)| SynthTarget {
+            idx,
+            conn: ok.then(|| Arc::clone(&conn.0)),
+            current: Rc::clone(&current),
+        })
+        .collect();
+    let routing_info = RoutingInfo::default();
+    let span = RequestSpan::new_query("verif");
+    let current_for_runner = Rc::clone(&current);
+    let run_request_once = move |_conn: Arc<Connection>, consistency: Consistency| {
+        let idx = current_for_runner.get();
+        let fut = run_once(idx, consistency);
+        async move {
+            fut.await.map(|()| NonErrorQueryResponse {
+                response: NonErrorResponseWithDeserializedMetadata::Ready,
+                tracing_id: None,
+                warnings: Vec::new(),
+            })
+        }
+    };
+    let outcome = exec_params
+        .run_request_no_side_effects(&routing_info, targets.into_iter(), run_request_once, &span)
+        .await?;
+    Ok(match outcome.result {
+        RunRequestResult::Completed(_) => ExecOutcome::Completed(outcome.coordinator),
+        RunRequestResult::IgnoredWriteError => ExecOutcome::IgnoredWriteError(outcome.coordinator),
+    })
+}
